@@ -71,6 +71,14 @@ def gen(seed, index, tier):
         sc["mutate"] = rng.choice([{"op": "delete", "p": pre + victim},
                                    {"op": "rename", "p": pre + victim, "to": pre + "renamed-" + victim},
                                    {"op": "create", "p": pre + "brand-new.txt"}])
+    if kind in ("trunc", "zero") and names and rng.random() < 0.35:
+        victim = rng.choice(names)
+        pre = (dname + "/") if dname else ""
+        sc["gen2"] = True
+        sc["mutate"] = rng.choice([{"op": "delete", "p": pre + victim},
+                                   {"op": "rename", "p": pre + victim, "to": pre + "renamed-" + victim},
+                                   {"op": "create", "p": pre + "brand-new.txt"},
+                                   {"op": "create", "p": pre + "zz-brand-new.txt"}])
     if kind == "splice":
         # a slow reader is part-way through a fresh cache when another request, for which the cache has
         # just expired, rewrites it; the directory changed (same-length names) since the cache was written
@@ -260,6 +268,22 @@ def _exec_cut(sc, root, refs, sel, tp):
             counters["stored_file_damaged"] = 1
             run.advance(1.0)
         elif viol is None and kind in ("trunc", "zero"):
+            if sc.get("gen2"):
+                # a longer life of the same process: it has read the first generation of this cache file, the
+                # directory changed, the cache expired and was rewritten; it is this second generation that is cut
+                c1b = run.client(reqA, tls=tlsA)
+                run.go()
+                resps.append(bytes(c1b.s2c))
+                run.advance(200.0)
+                _mutate(root, sc["mutate"], sched.EPOCH + 200.0)
+                refs = sc["_refs_after"]
+                c1c = run.client(reqA, tls=tlsA)
+                run.go()
+                resps.append(bytes(c1c.s2c))
+                viol = _check_resp(sc, run, sc["protoA"], c1c, refs, "second-generation")
+                size = os.path.getsize(cachepath)
+                cut = common.cut_from_spec(sc["cut"], size)
+                counters["second_generation_cut"] = 1
             if kind == "trunc":
                 if sc.get("sweep") and sc["cut"]["abs"] > size:
                     return common.result(None, None, {}, common.run_digest(run, resps), tp.rec, 0.0)
